@@ -26,9 +26,12 @@ PATTERNS = [
     (r"^work/(?P<date>[0-9]+)", ["date"]),
     (r"^home/(?P<date>[0-9]+)", ["date"]),
     (r"zzz_never", []),
+    (r"^zettel/(?P<name>\w+)\.zo$", ["name"]),
 ]
 TARGETS = ["20240102.zo", "log/20240131.zo", "habit_log.zo", "proj/zorg/ideas.zo", "2024/20240229.zo", "work/20240102.zo", "home/20240102.zo",
-           "misc.zo", "deep/a/b/c.zo", "notes", "readme.txt", "20241399.txt", "work/7.zo", "x_log.zo"]
+           "misc.zo", "deep/a/b/c.zo", "notes", "readme.txt", "20241399.txt", "work/7.zo", "x_log.zo",
+           # values that only START like a date (12-digit zettel id, date-prefixed stem) are plain strings
+           "work/202401021230.zo", "zettel/20240131_habit.zo", "zettel/202401011230.zo"]
 TMPL_PATHS = ["day.zot", "work/log.zot", "home/log.zot", "tmpl/log.zot", "tmpl/proj.zot", "any.zot", "tmpl/day.zot"]
 
 
@@ -94,7 +97,7 @@ def gen_case(rng):
                 "pre": rng.choice([None, None, "# existing\n\n- keep me\n", ""]),
                 "overwrite": rng.random() < 0.3,
                 "explicit": rng.choice([None, None, None] + list(tmpls)),
-                "vars": rng.choice([{}, {}, {"k": "v"}, {"date": "20230505", "k": "w"}, {"name": "given"}]),
+                "vars": rng.choice([{}, {}, {"k": "v"}, {"date": "20230505", "k": "w"}, {"name": "given"}, {"name": "202401011230", "k": "20240102x"}]),
                 "via": "main" if rng.random() < 0.15 else "api",
                 "abs": rng.random() < 0.3,
             }
